@@ -1253,6 +1253,55 @@ pub(crate) mod verif_probe {
                         pool.users.insert("0".to_string(), user);
                         pool
                     };
+                    let mode = v.get("mode").and_then(|x| x.as_str()).unwrap_or("mixed").to_string();
+                    if mode == "auth_query" || mode == "grow" || mode == "swap" || mode == "two_users" {
+                        // what a re-created / kept pool shares with its predecessor and its siblings
+                        let name = format!("rebuild_{}", tag);
+                        let mut p1 = mk(1);
+                        if mode != "grow" && mode != "swap" {
+                            p1.auth_query = Some("SELECT usename, passwd FROM pg_shadow WHERE usename='$1'".to_string());
+                            p1.auth_query_user = Some("lookup".to_string());
+                            p1.auth_query_password = Some("lookup".to_string());
+                        }
+                        if mode == "two_users" {
+                            let mut u2 = User::default(); u2.username = "v".to_string(); u2.password = Some("pw2".to_string());
+                            p1.users.insert("1".to_string(), u2);
+                        }
+                        let mut a = crate::config::Config::default();
+                        a.general.validate_config = false;
+                        a.pools.insert(name.clone(), p1.clone());
+                        crate::config::verif_probe::set_config(a.clone());
+                        let csm: ClientServerMap = Arc::new(Mutex::new(HashMap::new()));
+                        if ConnectionPool::from_config(csm.clone()).await.is_err() { return json!({"error": "first from_config failed"}); }
+                        let before = get_pool(&name, "u").unwrap();
+                        if mode == "two_users" {
+                            let other = get_pool(&name, "v").unwrap();
+                            return json!({"auth_hash_distinct": !Arc::ptr_eq(&before.auth_hash, &other.auth_hash)});
+                        }
+                        let mut b = a.clone();
+                        if mode == "grow" {
+                            before.ban(&before.addresses[0][0].clone(), BanReason::FailedHealthCheck, None);
+                            let mut p2 = p1.clone();
+                            p2.shards.insert("1".to_string(), crate::config::Shard { database: "db".to_string(), mirrors: None,
+                                servers: vec![crate::config::ServerConfig { host: "127.0.0.1".to_string(), port: 2, role: Role::Primary }] });
+                            b.pools.insert(name.clone(), p2);
+                        } else if mode == "swap" {
+                            before.ban(&before.addresses[0][0].clone(), BanReason::FailedHealthCheck, None);
+                            b.pools.insert(name.clone(), mk(2));
+                        } else {
+                            b.general.ban_time = 61;        // something ELSE in the file changed
+                        }
+                        crate::config::verif_probe::set_config(b);
+                        if ConnectionPool::from_config(csm).await.is_err() { return json!({"error": "second from_config failed"}); }
+                        let after = get_pool(&name, "u").unwrap();
+                        if mode == "auth_query" {
+                            return json!({"unchanged_reused": Arc::ptr_eq(&after.databases, &before.databases)});
+                        }
+                        let slots = after.banlist.read().len();
+                        let bans: usize = after.banlist.read().iter().map(|m| m.len()).sum();
+                        let want = if mode == "grow" { 2 } else { 1 };
+                        return json!({"rebuilt_banlist_ok": slots == want && bans == 0 && !Arc::ptr_eq(&after.banlist, &before.banlist), "banlist_slots": slots, "shards": want, "bans": bans});
+                    }
                     let (keep, change, gone) = (format!("keep_{}", tag), format!("change_{}", tag), format!("gone_{}", tag));
                     let mut a = crate::config::Config::default();
                     a.general.validate_config = false;
@@ -1277,6 +1326,36 @@ pub(crate) mod verif_probe {
                         "unchanged_reused": keep_after.map(|p| Arc::ptr_eq(&p.databases, &keep_before.databases)).unwrap_or(false),
                         "changed_rebuilt": remove_only || change_after.map(|p| !Arc::ptr_eq(&p.databases, &change_before.databases) && p.addresses[0][0].port == 6543).unwrap_or(false),
                     })
+                }))
+            }
+            "connect_states" => {
+                // bb8 opens connections ahead of use (min_idle): how are they listed while nobody uses them?  and after a connect that failed?
+                let rt = tokio::runtime::Builder::new_multi_thread().worker_threads(2).enable_all().build().unwrap();
+                Some(rt.block_on(async move {
+                    let tag = std::time::SystemTime::now().duration_since(std::time::UNIX_EPOCH).unwrap().as_nanos();
+                    let db = format!("connstates_{}", tag);
+                    let log: SharedLog = Arc::new(Mutex::new(RefLog::default()));
+                    let listener = TcpListener::bind("127.0.0.1:0").await.unwrap();
+                    let port = listener.local_addr().unwrap().port();
+                    tokio::spawn(ref_postgres(listener, log.clone(), 0));
+                    let user = User { username: "u".to_string(), password: None, auth_type: AuthType::Trust, pool_size: 2, ..User::default() };
+                    let csmap: ClientServerMap = Arc::new(Mutex::new(HashMap::new()));
+                    let mk = |port: u16, name: &str| {
+                        let a = Address { host: "127.0.0.1".to_string(), port, role: Role::Primary, database: "db".to_string(), username: "u".to_string(), pool_name: name.to_string(), ..Address::default() };
+                        ServerPool::new(a, user.clone(), "db", csmap.clone(), Arc::new(RwLock::new(None)), None, true, false, 0)
+                    };
+                    let good = Pool::builder().max_size(2).min_idle(Some(2)).connection_timeout(std::time::Duration::from_millis(1500)).test_on_check_out(false).build(mk(port, &db)).await;
+                    let good = match good { Ok(p) => p, Err(e) => return json!({"error": format!("pool build failed: {:?}", e)}) };
+                    for _ in 0..40 { if good.state().idle_connections >= 2 { break; } tokio::time::sleep(std::time::Duration::from_millis(50)).await; }
+                    let states: Vec<String> = crate::stats::get_server_stats().values().filter(|s| s.pool_name() == db)
+                        .map(|s| s.state.load(Ordering::Relaxed).to_string()).collect();
+                    // a port nobody listens on
+                    let dead = { let l = std::net::TcpListener::bind("127.0.0.1:0").unwrap(); l.local_addr().unwrap().port() };
+                    let db2 = format!("{}_dead", db);
+                    let bad = Pool::builder().max_size(1).connection_timeout(std::time::Duration::from_millis(400)).test_on_check_out(false).build_unchecked(mk(dead, &db2));
+                    let _ = bad.get().await;
+                    let listed = crate::stats::get_server_stats().values().filter(|s| s.pool_name() == db2).count();
+                    json!({"states_after_open": states, "listed_after_failure": listed, "idle_in_bb8": good.state().idle_connections})
                 }))
             }
             "host_lookup" => {
